@@ -535,6 +535,7 @@ def optStrL : Option (Val N) → Option (List Char)
 def libRound (x : N) (p : Int) : N :=
   if beq x (ofInt 0) then ofInt 0
   else if p ≥ 0 && beq x (trunc x) then x
+  else if p < -400 then ofInt 0     -- no double has 400 integer digits (and 10^|p| need not be computed)
   else
     let me := toDec x
     if isInf (ofDec me.1 (me.2 + p) : N) then x
